@@ -248,4 +248,11 @@ def run(ctx):
     cs = [callee(t) for _, t in run.calls()]
     if "interpreter::interpreter::Interpreter::new_with_stdlib" not in cs or rwi.name not in cs:
         ctx.report("C18-one-interpreter", "run", "repl::run does not create one interpreter and start the session with it", where_of(run))
+    # ------------------------------------------------------------------ C18-position-free
+    ctx.rule("C18-position-free", "what a submission prints does not depend on where in the submission's text a sub-form sits: the printed "
+                                  "text of a procedure value is the same at every line / column (necessary for `the transcript is the same "
+                                  "however a form is split across lines`)")
+    from . import printtables as _pt18
+    _pt18.rule_position_free(ctx, "C18-position-free")
+    _pt18.rule_messages_position_free(ctx, "C18-position-free")
     return EXPLANATION, NOT_DECIDED
